@@ -23,8 +23,17 @@ import (
 // (judged by the other checks of this package) give on the same input.
 
 type CliCase struct {
-	Acr *AcrCase `json:"acr,omitempty"`
-	Asr *AsrCase `json:"asr,omitempty"`
+	Acr    *AcrCase `json:"acr,omitempty"`
+	Asr    *AsrCase `json:"asr,omitempty"`
+	Copies int      `json:"copies,omitempty"` // the input stream holds the tree this many times (0 = once): every tree gets its own result
+	InMode string   `json:"in_mode,omitempty"`
+}
+
+func (c CliCase) copies() int {
+	if c.Copies < 1 {
+		return 1
+	}
+	return c.Copies
 }
 
 func checkCli(c CliCase) error {
@@ -40,17 +49,21 @@ func checkCli(c CliCase) error {
 		if a.Random {
 			args = append(args, "--random-resolve")
 		}
-		return cli.Differential(args, ref.Write(a.Tree)+"\n", map[string]string{"states.txt": st.String()}, func() (string, error) {
-			t, err := gt.FromModel(a.Tree)
-			if err != nil {
-				return "", err
-			}
+		return cli.DifferentialIn(args, strings.Repeat(ref.Write(a.Tree)+"\n", c.copies()), map[string]string{"states.txt": st.String()}, "", c.InMode, func() (string, error) {
 			rand.Seed(a.Seed)
-			_, steps, err := acr.ParsimonyAcr(t, tipState, algos[a.Algo], a.Random)
-			if err != nil {
-				return "", err
+			out := ""
+			for k := 0; k < c.copies(); k++ {
+				t, err := gt.FromModel(a.Tree)
+				if err != nil {
+					return "", err
+				}
+				_, steps, err := acr.ParsimonyAcr(t, tipState, algos[a.Algo], a.Random)
+				if err != nil {
+					return "", err
+				}
+				out += t.Newick() + "\n" + fmt.Sprintf("steps %d\n", steps)
 			}
-			return t.Newick() + "\n" + fmt.Sprintf("steps %d\n", steps), nil
+			return out, nil
 		})
 	}
 	a := c.Asr
@@ -66,28 +79,32 @@ func checkCli(c CliCase) error {
 	if a.Random {
 		args = append(args, "--random-resolve")
 	}
-	return cli.Differential(args, ref.Write(a.Tree)+"\n", map[string]string{"align.fa": fa.String()}, func() (string, error) {
-		t, err := gt.FromModel(a.Tree)
-		if err != nil {
-			return "", err
-		}
+	return cli.DifferentialIn(args, strings.Repeat(ref.Write(a.Tree)+"\n", c.copies()), map[string]string{"align.fa": fa.String()}, "", c.InMode, func() (string, error) {
 		rand.Seed(a.Seed)
-		steps, err := asr.ParsimonyAsr(t, al, algos[a.Algo], a.Random)
-		if err != nil {
-			return "", err
+		out := ""
+		for k := 0; k < c.copies(); k++ {
+			t, err := gt.FromModel(a.Tree)
+			if err != nil {
+				return "", err
+			}
+			steps, err := asr.ParsimonyAsr(t, al, algos[a.Algo], a.Random)
+			if err != nil {
+				return "", err
+			}
+			s := "steps"
+			for _, x := range steps {
+				s += " " + strconv.Itoa(x)
+			}
+			out += s + "\n" + t.Newick() + "\n"
 		}
-		s := "steps"
-		for _, x := range steps {
-			s += " " + strconv.Itoa(x)
-		}
-		return s + "\n" + t.Newick() + "\n", nil
+		return out, nil
 	})
 }
 
 func TestC12Cli(t *testing.T) {
 	h.Run(t, h.Spec[CliCase]{
 		Property: "C12", Name: "cli", Quick: 1600, Thorough: 32000,
-		Rule: "`gotree acr --states f --algo a [--random-resolve] --seed s` and `gotree asr -a align.fa --algo a ...` on the generated trees, tip states and alignments of the library checks (state names without tab, comma or blank; no re-rooting): annotated tree and step counts must be byte-identical to what the library calls give; non-trivial = >= 5 tips",
+		Rule: "`gotree acr --states f --algo a [--random-resolve] --seed s` and `gotree asr -a align.fa --algo a ...` on the generated trees, tip states and alignments of the library checks (state names without tab, comma or blank; no re-rooting): the input stream holds the tree 1-3 times (stdin, file, gzip file or Nexus document); annotated trees and step counts, tree by tree, must be byte-identical to what the library calls give; non-trivial = >= 5 tips",
 		Gen: func(t *rapid.T, thorough bool) CliCase {
 			if rapid.Bool().Draw(t, "acr") {
 				a := genAcr(t, false)
@@ -97,11 +114,11 @@ func TestC12Cli(t *testing.T) {
 				for i, n := range a.Names {
 					a.Names[i] = strings.NewReplacer(" ", "_", ",", "_", "\t", "_", ";", "_").Replace(n)
 				}
-				return CliCase{Acr: &a}
+				return CliCase{Acr: &a, Copies: rapid.IntRange(1, 3).Draw(t, "copies"), InMode: rapid.SampledFrom(cli.InModes).Draw(t, "inmode")}
 			}
 			a := genAsr(t, false)
 			a.Reroot = -1
-			return CliCase{Asr: &a}
+			return CliCase{Asr: &a, Copies: rapid.IntRange(1, 3).Draw(t, "copies"), InMode: rapid.SampledFrom(cli.InModes).Draw(t, "inmode")}
 		},
 		Check: checkCli,
 		Classify: func(c CliCase) (bool, []string) {
